@@ -1684,3 +1684,179 @@ func (c *Ctx) rulesR4lastpass() {
 		c.undecided(fmt.Sprintf("C17.lastpass: only %d loop exits found in the bbolt/badger FindLatest walks (expected >= 4)", n))
 	}
 }
+
+// rulesR4bounds2: C20.bounds, constructors and TimeIndex
+func (c *Ctx) rulesR4bounds2() {
+	isIntsParam := func(v ssa.Value) bool {
+		p, ok := v.(*ssa.Parameter)
+		if !ok {
+			return false
+		}
+		sl, ok := p.Type().Underlying().(*types.Slice)
+		if !ok {
+			return false
+		}
+		bt, ok := sl.Elem().Underlying().(*types.Basic)
+		return ok && bt.Kind() == types.Int
+	}
+	callerPos := func(idx ssa.Value) bool {
+		for {
+			if cv, ok := idx.(*ssa.Convert); ok {
+				idx = cv.X
+				continue
+			}
+			break
+		}
+		if p, ok := idx.(*ssa.Parameter); ok {
+			bt, ok := p.Type().Underlying().(*types.Basic)
+			return ok && bt.Kind() == types.Int
+		}
+		if u, ok := idx.(*ssa.UnOp); ok && u.Op == token.MUL {
+			if ia, ok := u.X.(*ssa.IndexAddr); ok && isIntsParam(ia.X) {
+				return true
+			}
+		}
+		return false
+	}
+	same := func(a, b ssa.Value) bool {
+		if a == b {
+			return true
+		}
+		fa, fb := loadOfField(a), loadOfField(b)
+		return fa != nil && fa == fb
+	}
+	n := 0
+	for _, f := range c.Funcs {
+		if f.Parent() != nil || f.Pkg == nil || relPkg(f.Pkg.Pkg.Path()) != pm || !isExportedFunc(f) {
+			continue
+		}
+		inScope := false
+		if recv := f.Signature.Recv(); recv != nil {
+			if nt := namedOf(recv.Type()); nt != nil && nt.Obj().Name() == "TimeIndex" {
+				inScope = true
+			}
+		} else if res := f.Signature.Results(); res.Len() == 1 {
+			if nt := namedOf(res.At(0).Type()); nt != nil && (nt.Obj().Name() == "Time" || nt.Obj().Name() == "TimeIndex") && nt.Obj().Pkg() == f.Pkg.Pkg {
+				inScope = true
+			}
+		}
+		if !inScope {
+			continue
+		}
+		k := 0
+		for _, b := range f.Blocks {
+			for _, ins := range b.Instrs {
+				var x, idx ssa.Value
+				switch ia := ins.(type) {
+				case *ssa.IndexAddr:
+					x, idx = ia.X, ia.Index
+				case *ssa.Index:
+					x, idx = ia.X, ia.Index
+				default:
+					continue
+				}
+				if _, ok := x.Type().Underlying().(*types.Slice); !ok || !callerPos(idx) {
+					continue
+				}
+				k++
+				n++
+				lower, upper := false, false
+				for _, g := range guardsOf(b) {
+					cond, neg := stripNot(g.Cond)
+					cb, ok := cond.(*ssa.BinOp)
+					if !ok {
+						continue
+					}
+					holds := g.Pol != neg
+					other := ssa.Value(nil)
+					op := cb.Op
+					if cb.X == idx {
+						other = cb.Y
+					} else if cb.Y == idx {
+						other = cb.X
+						switch op {
+						case token.LSS:
+							op = token.GTR
+						case token.GTR:
+							op = token.LSS
+						case token.LEQ:
+							op = token.GEQ
+						case token.GEQ:
+							op = token.LEQ
+						}
+					}
+					if other == nil {
+						continue
+					}
+					if kk, isK := constInt(other); isK {
+						switch {
+						case kk == 0 && ((op == token.GEQ && holds) || (op == token.LSS && !holds)),
+							kk == -1 && ((op == token.GTR && holds) || (op == token.LEQ && !holds) || (op == token.NEQ && holds) || (op == token.EQL && !holds)):
+							lower = true
+						}
+					}
+					if call, ok := other.(*ssa.Call); ok {
+						if bi, ok := call.Call.Value.(*ssa.Builtin); ok && bi.Name() == "len" && same(call.Call.Args[0], x) {
+							if (op == token.LSS && holds) || (op == token.GEQ && !holds) {
+								upper = true
+							}
+						}
+					}
+				}
+				c.check(lower && upper, "C20.bounds", fmt.Sprintf("%s: access%s to %s with a caller-supplied position is bounded on both sides", funcKey(f), nth(k-1), render(x)), ins.Pos(),
+					fmt.Sprintf("index %s: lower bound checked %v, upper bound checked %v (Index() gives -1 for an unknown state)", render(idx), lower, upper))
+			}
+		}
+	}
+	if n < 3 {
+		c.undecided(fmt.Sprintf("C20.bounds: only %d caller-positioned accesses found in the Time constructors / TimeIndex methods (expected >= 3)", n))
+	}
+}
+
+// rulesR4fresh: C20.fresh
+func (c *Ctx) rulesR4fresh() {
+	c.rule("C20.fresh", "an exported method of the slice types Time and S that returns a value of its own type never returns the receiver (or a slice parameter) itself: every other path hands out a fresh slice, and a caller that modifies the result of the aliasing path rewrites the original (which may be machine-owned storage handed out as a copy elsewhere)")
+	n := 0
+	for _, f := range c.Funcs {
+		if f.Parent() != nil || f.Pkg == nil || relPkg(f.Pkg.Pkg.Path()) != pm || !isExportedFunc(f) {
+			continue
+		}
+		recv := f.Signature.Recv()
+		if recv == nil {
+			continue
+		}
+		nt := namedOf(recv.Type())
+		if nt == nil || (nt.Obj().Name() != "Time" && nt.Obj().Name() != "S") {
+			continue
+		}
+		if _, isPtr := recv.Type().(*types.Pointer); isPtr {
+			continue
+		}
+		res := f.Signature.Results()
+		if res.Len() != 1 || namedOf(res.At(0).Type()) != nt {
+			continue
+		}
+		rets := returnsOf(f)
+		fresh, alias := 0, 0
+		var pos token.Pos
+		for _, r := range rets {
+			v := stripConv(retVals(r)[0])
+			if p, ok := v.(*ssa.Parameter); ok {
+				if _, isSl := p.Type().Underlying().(*types.Slice); isSl {
+					alias++
+					pos = r.Pos()
+					continue
+				}
+			}
+			fresh++
+		}
+		if fresh == 0 {
+			continue // an identity-style method (no fresh path to disagree with)
+		}
+		n++
+		c.check(alias == 0, "C20.fresh", funcKey(f)+" never returns its receiver or a parameter", pos, "one path returns the receiver/parameter slice itself while the others return a fresh slice")
+	}
+	if n < 8 {
+		c.undecided(fmt.Sprintf("C20.fresh: only %d Time/S methods examined (expected >= 8)", n))
+	}
+}
